@@ -147,7 +147,19 @@ class WrapperModel:
         return []
 
     def kernel_aliases(self, fi: FuncInfo) -> Dict[str, DispatchSite]:
-        return {s.alias: s for s in self.site_by_func.get(fi.qual, [])}
+        d = {s.alias: s for s in self.site_by_func.get(fi.qual, [])}
+        # `impl = _select_backend()` where the helper holds the try/except import and returns the routine it imported: the
+        # local is an alias of that dispatch site
+        for n in ast.walk(fi.node):
+            if isinstance(n, ast.Assign) and len(n.targets) == 1 and isinstance(n.targets[0], ast.Name) \
+                    and isinstance(n.value, ast.Call) and isinstance(n.value.func, ast.Name) and not n.value.args:
+                for t, _ in self.callees(fi, n.value):
+                    sites = self.site_by_func.get(t.qual, [])
+                    rets = [r for r in ast.walk(t.node) if isinstance(r, ast.Return)]
+                    for st_ in sites:
+                        if rets and all(isinstance(r.value, ast.Name) and r.value.id == st_.alias for r in rets):
+                            d.setdefault(n.targets[0].id, st_)
+        return d
 
     # ------------------------------------------------------------------ train parameters
     def _infer_train_params(self):
